@@ -24,12 +24,12 @@ class Site:
     @property
     def args(self):
         if self._args is None:
-            self._args = [self.body.val_operand(a) for a in self.term["args"]]
+            self._args = [through_lists(self.body, self.body.val_operand(a)) for a in self.term["args"]]
         return self._args
 
     @property
     def result(self):
-        return self.body.val_call(self.term, (), self.bb)
+        return through_lists(self.body, self.body.val_call(self.term, (), self.bb))
 
     @property
     def where(self):
@@ -51,6 +51,127 @@ class Site:
 
 def call_sites(body):
     return [Site(body, bb, t) for (bb, t) in body.calls]
+
+
+# ------------------------------------------------------------------ work lists
+# `let mut later = vec![]; for e in xs { if c(e) { later.push(f(e)) } } .. for y in later { g(y) }`: a list that is created empty, filled by exactly one
+# push and otherwise only iterated over is a queue of the pushed values. An element of it IS a pushed value, and code that runs for an element runs
+# under the condition under which that value was pushed (the two loops run one after the other over the same elements, filtered by c).
+
+_NEUTRAL_USES = ("len", "iter", "into_iter", "is_empty", "deref", "next", "drop", "as_slice", "capacity")
+
+
+def single_push_lists(body):
+    """{list term: (block of the push, pushed value)}"""
+    c = getattr(body, "_single_push_lists", None)
+    if c is not None:
+        return c
+    body._single_push_lists = {}  # (guards against re-entry while the sites below are evaluated)
+    uses = {}
+    raw = []
+    for (bb, t) in body.calls:
+        fn = body.callee(t)
+        if not fn or not t["args"]:
+            continue
+        a0 = body.val_operand(t["args"][0])
+        while a0[0] in ("iter",):
+            a0 = a0[1]
+        raw.append((bb, t, fn, a0))
+    for (bb, t, fn, a0) in raw:
+        if a0[0] == "call" and a0[1].startswith("std::vec::Vec::") and a0[1].rsplit("::", 1)[-1] in ("new", "with_capacity") and a0[3] and a0[3][0] == body.path:
+            uses.setdefault(a0, []).append((bb, t, fn))
+    out = {}
+    for L, us in uses.items():
+        pushes = [(bb, t) for (bb, t, fn) in us if fn["path"] == "std::vec::Vec::<T, A>::push" and len(t["args"]) == 2]
+        others = [(bb, t, fn) for (bb, t, fn) in us if fn["path"].rsplit("::", 1)[-1] not in _NEUTRAL_USES and fn["path"] != "std::vec::Vec::<T, A>::push"]
+        if len(pushes) != 1 or others:
+            continue
+        pbb, pt = pushes[0]
+        # the list must not escape (be returned, stored or passed on whole): every mention of it is one of the uses seen above
+        v = body.val_operand(pt["args"][1])
+        if contains_term(v, L) or body.val_local(0) == L:
+            continue
+        # the list is created, filled by one loop and then read by loops that come after it, all at the same nesting: created outside the filling loop,
+        # never read while it is being filled, not carried over from one round of an enclosing loop to the next
+        pl = body.loops_of(pbb)
+        cbb = L[3][1]
+        if not pl or list(body.loops_of(cbb)) != list(pl[:-1]):
+            continue
+        ok = True
+        for (bb, t, fn) in us:
+            if fn["path"] == "std::iter::Iterator::next":
+                cl = body.loops_of(bb)
+                if not cl or list(cl[:-1]) != list(pl[:-1]) or cl[-1] == pl[-1] or not body.reaches(pl[-1], cl[-1]) or body.dominates(pl[-1], cl[-1]) is False:
+                    ok = False
+        if ok:
+            out[L] = (pbb, v)
+    body._single_push_lists = out
+    return out
+
+
+def contains_term(t, x):
+    if t == x:
+        return True
+    if isinstance(t, tuple):
+        return any(contains_term(y, x) for y in t if isinstance(y, tuple))
+    return False
+
+
+_RAW = [0]
+
+
+class raw_terms:
+    """inside this context sites report their arguments as written (the summary engine has its own treatment of lists that carry reports)"""
+    def __enter__(self):
+        _RAW[0] += 1
+
+    def __exit__(self, *a):
+        _RAW[0] -= 1
+
+
+def through_lists(body, t):
+    """replace `element of a work list` by the value that was pushed"""
+    if _RAW[0]:
+        return t
+    sp = single_push_lists(body)
+    if not sp:
+        return t
+
+    def rw(x):
+        if not isinstance(x, tuple) or not x:
+            return x
+        if x[0] == "elem":
+            L = x[1][1] if x[1][0] == "iter" else x[1]
+            if L in sp:
+                return sp[L][1]
+        if x[0] in ("const", "param", "rec", "unknown", "bottom"):
+            return x
+        if x[0] == "proj" and len(x) == 3:
+            base = rw(x[1])
+            return core.mk_proj(base, x[2]) if base != x[1] else x  # (a field of a queued tuple is that component)
+        return tuple(rw(y) if isinstance(y, tuple) else y for y in x)
+    return rw(t)
+
+
+def work_list_of_block(body, bb):
+    """push blocks of the work lists whose consuming loops contain bb"""
+    sp = single_push_lists(body)
+    if not sp:
+        return []
+    out = []
+    for (cbb, t) in body.calls:
+        fn = body.callee(t)
+        if not fn or fn["path"] != "std::iter::Iterator::next" or not t["args"]:
+            continue
+        heads = body.loops_of(cbb)
+        if not heads or bb not in body.loops.get(heads[-1], ()):
+            continue
+        it = body.val_operand(t["args"][0])
+        while it[0] == "iter":
+            it = it[1]
+        if it in sp and sp[it][0] not in body.loops.get(heads[-1], ()):
+            out.append(sp[it][0])
+    return out
 
 
 # ------------------------------------------------------------------ atoms
@@ -121,6 +242,12 @@ def block_guard(body, bb, names=None):
     raw = core.block_guard_atoms(body, bb)
     if raw is None:
         return None
+    for pbb in work_list_of_block(body, bb):
+        # code that runs for an element of a work list runs under the condition under which the element was queued
+        praw = core.block_guard_atoms(body, pbb)
+        if praw is not None:
+            raw = [list(c1) + list(c2) for c1 in raw for c2 in praw]
+    raw = [[_rw_atom(body, a) for a in conj] for conj in raw]
     out = []
     for conj in raw:
         c = []
@@ -135,6 +262,10 @@ def block_guard(body, bb, names=None):
         if not dead:
             out.append(sorted(set(c)))
     return simplify_dnf(out)
+
+
+def _rw_atom(body, a):
+    return tuple(through_lists(body, x) if isinstance(x, tuple) and x and isinstance(x[0], str) and not all(isinstance(y, str) for y in x) else x for x in a)
 
 
 def simplify_dnf(out):
